@@ -55,8 +55,8 @@ def _tasks():
         return 2 * x + 1
 
     @workflow.define
-    def Wf(x: int, side: str, delay: float = 0.0) -> int:
-        a = workflow.add(Work(x=x, side=side, delay=delay), name="a")
+    def Wf(x: int, side: str, delay: float = 0.0, fail: bool = False) -> int:
+        a = workflow.add(Work(x=x, side=side, delay=delay, fail=fail), name="a")
         b = workflow.add(Work(x=a.out, side=side), name="b")
         return b.out
 
@@ -70,7 +70,8 @@ def build_task(cfg):
         return t["python"](x=cfg.get("x", 3), side=cfg["side"], delay=cfg.get("delay", 0.0),
                            fail=cfg.get("fail", False), flaky=cfg.get("flaky", ""), chdir=cfg.get("chdir", ""))
     if kind == "workflow":
-        return t["workflow"](x=cfg.get("x", 3), side=cfg["side"], delay=cfg.get("delay", 0.0))
+        return t["workflow"](x=cfg.get("x", 3), side=cfg["side"], delay=cfg.get("delay", 0.0),
+                             fail=cfg.get("fail", False))
     if kind == "shell":
         # the body is /bin/sh running a script the parent wrote (one line per execution into the side file)
         Sh = t["shell"].define("sh <script:str>")
@@ -430,7 +431,7 @@ def observe_cache(cache_root, key):
 TERMINAL = ("job.post_run_done", "job.cache_hit", "drv.returned", "drv.raised")
 
 
-def events_for(trace, children, key, plain=False):
+def events_for(trace, children, key, plain=False, top=None):
     """Translate the recorded lines that concern checksum `key` into model events.
 
     children: {os pid: dict(idx=model pid, subs=[submission cfgs], inject=(label, nth) | None,
@@ -447,11 +448,17 @@ def events_for(trace, children, key, plain=False):
     hits = {}
     last_label = {}
     pending_body = {}
+    all_plain = plain
     for pid, _tid, label, k in trace:
         ch = children.get(pid)
-        if ch is None or (k not in ("-", key)) or (plain and k == "-"):
+        if ch is None or (k not in ("-", key)):
             continue
         i = ch["idx"]
+        # top: {model pid: checksum that submitter submitted itself}; a submitter that reaches `key` only as a node
+        # of its workflow is treated like in plain mode
+        plain = all_plain or (top is not None and top.get(i) != key)
+        if plain and k == "-":
+            continue
         if label == "job.pre_run_done":
             sub_no[i] = sub_no.get(i, -1) + 1
             if plain and last_label.get(i) is not None:
@@ -468,6 +475,8 @@ def events_for(trace, children, key, plain=False):
             ev.append((i, "(APreRun %s %s)" % ("true" if sc.get("rerun") else "false", "true" if sc.get("_async") else "false")))
         else:
             ev.append((i, ACTION[label]))
+        if plain and label == "job.cache_hit" and not ch.get("crashed"):
+            ev.append((i, "ARelease"))        # a node job that hits returns from inside the with block: no later line
         last_label[i] = label
         hits[(i, label)] = hits.get((i, label), 0) + 1
         if label == "job.body_enter":
@@ -634,6 +643,11 @@ def run_scenario(sc, workroot=None):
                             script.pop(0)                  # that child has finished
                             return choose(parked, cnt)
                         if want not in parked:
+                            patience = script[0][3] if len(script[0]) > 3 else 30.0
+                            if state.get("waited", 0) * 0.02 >= patience:
+                                state["waited"] = 0
+                                script.pop(0)              # blocked (on a lock): go on with the rest
+                                return choose(parked, cnt)
                             if state.get("waited", 0) < 1500:      # ~30 s, then give the script up
                                 state["waited"] = state.get("waited", 0) + 1
                                 return None
@@ -718,12 +732,23 @@ def run_scenario(sc, workroot=None):
             dirs = [d for d in sorted(os.listdir(cache)) if os.path.isdir(os.path.join(cache, d))]
             key = dirs[0] if dirs else "-"
         g = observe_cache(cache, key) if key != "-" else None
-        ev = events_for(tr, children, key)
+        top = {}
+        for pid, _, l, k in tr:
+            if l == "job.lock_acquired" and pid in children and children[pid]["idx"] not in top:
+                top[children[pid]["idx"]] = k
+        if sc.get("focus_prefix"):
+            # the checksum under test is reached by different routes (directly / as a node of a workflow)
+            key = next((k for pid, _, l, k in tr if l == "job.lock_acquired" and pid in children
+                        and k.startswith(sc["focus_prefix"])), key)
+            g = observe_cache(cache, key) if key != "-" else None
+        ev = events_for(tr, children, key, top=top if sc.get("focus_prefix") else None)
         node_keys = []
         for pid, _, l, k in tr:
             if pid in children and k not in ("-", key) and k not in node_keys:
                 node_keys.append(k)
         node_events = {k: events_for(tr, children, k, plain=True) for k in node_keys}
+        if sc.get("focus_prefix"):
+            infos = [dict(c, direct=(top.get(c["idx"]) == key)) for c in infos]
         # info files left behind by node jobs (each job writes <uid>_info.json of its own)
         node_infos_left = 0
         for k in node_keys:
@@ -764,7 +789,9 @@ def case_literal(sc, res, bv):
     """Gallina literal of type Model.CacheProto.trace_case for a finished scenario."""
     g = res["cache"] or dict(lock=False, slock=False, dir=False, job=0, res=0, err=0, infos=0)
     runs = res["runs"]        # the preparatory run, if any, left one line as well (= the model's initial runs := 1)
-    if sc.get("task", {}).get("task") == "workflow":
+    if sc.get("focus_prefix"):
+        runs = res["runs_by_x"].get(str(sc["task"].get("x", 3)), 0)
+    elif sc.get("task", {}).get("task") == "workflow":
         # the body of a workflow is the expansion of its graph: it leaves no line of its own
         runs = sum(1 for _, a in res["events"] if a in ("ABodyLeft", "ABodyRaise")) + (1 if sc.get("pre") else 0)
     gl = "(%s, %s, %s, %d, %d, %d, %d, %d)" % (
@@ -772,6 +799,8 @@ def case_literal(sc, res, bv):
         g["job"], g["res"], g["err"], runs, max(0, g["infos"] - res.get("node_infos_left", 0)))
     pl = []
     for ch in res["children"]:
+        if ch.get("direct") is False:
+            continue          # reached the checksum as a node of its workflow: its caller got the workflow's outputs
         rep = ch["report"]
         last = rep[-1] if (rep and ch["rc"] == 0) else None
         pl.append("(%d, %s, %s, %d, %d)" % (
